@@ -71,6 +71,12 @@ Qed.
 Lemma list_snoc_cases {A} (l : list A) : l = [] \/ exists pre x, l = pre ++ [x].
 Proof. destruct l as [|x l] using rev_ind; [left; reflexivity|right; exists l, x; reflexivity]. Qed.
 
+Lemma give_ending_app eol a b : b <> [] -> give_ending_to_last eol (a ++ b) = a ++ give_ending_to_last eol b.
+Proof.
+  intros Hb. destruct (list_snoc_cases b) as [->|(p & x & ->)]; [contradiction|].
+  rewrite app_assoc, !give_ending_snoc, app_assoc. reflexivity.
+Qed.
+
 (* ---------------------------------------------------------------- insert *)
 
 (* insert_splice, by decomposition of the line list at the insertion point *)
